@@ -111,25 +111,28 @@ def detect(ids):
     if not ids:
         ids = sorted(os.listdir(SEEDED))
     matrix = {}
-    mp = os.path.join(SEEDED, "MATRIX.json")
+    # SEED_REPO / SEED_MATRIX let several detections run side by side, each on its own clean worktree of
+    # /repo HEAD and with its own result file (tools/detect_parallel.sh merges them); default: /repo itself
+    repo = os.environ.get("SEED_REPO", "/repo")
+    mp = os.environ.get("SEED_MATRIX", os.path.join(SEEDED, "MATRIX.json"))
     if os.path.exists(mp):
         matrix = json.load(open(mp))
-    rc, out = sh("git -C /repo status --porcelain")
+    rc, out = sh(f"git -C {repo} status --porcelain")
     if out.strip():
-        raise SystemExit("/repo working tree is not clean")
+        raise SystemExit(f"{repo} working tree is not clean")
     for sid in ids:
         d = os.path.join(SEEDED, sid)
         if not os.path.isdir(d):
             continue
         meta = json.load(open(os.path.join(d, "meta.json")))
-        rc, out = sh(f"git -C /repo apply {d}/patch.diff")
+        rc, out = sh(f"git -C {repo} apply {d}/patch.diff")
         if rc != 0:
             print(sid, "patch does not apply:", out)
             continue
         res = {}
         try:
             for prop in meta["checked_against"]:
-                rc, out = sh(f"/verif/bin/dvidlint -prop {prop} -noevidence")
+                rc, out = sh(f"/verif/bin/dvidlint -repo {repo} -prop {prop} -noevidence")
                 fired = re.findall(r"rule=(\S+) construct=(\S+)", out)
                 viol = [f"{a} {b}" for a, b in fired if ("VIOLATION" in out)]
                 # keep only those under VIOLATION lines
@@ -142,7 +145,7 @@ def detect(ids):
                             v2.append(mm.group(1) + " " + mm.group(2))
                 res[prop] = {"exit": rc, "violations": v2[:6], "n_violations": len(v2), "undecided": out.count("\nUNDECIDED:")}
         finally:
-            sh("git -C /repo checkout -- .")
+            sh(f"git -C {repo} checkout -- .")
         caught = any(v["exit"] == 1 for v in res.values())
         matrix[sid] = {"property": meta["property"], "caught": caught, "by": res, "summary": (meta.get("summary") or "")[:160]}
         print(sid, "CAUGHT" if caught else "missed", {p: (v["exit"], v["violations"][:2]) for p, v in res.items()})
